@@ -80,6 +80,7 @@
 #include <signal.h>
 #include <unistd.h>
 #include <poll.h>
+#include <fcntl.h>
 #include <sys/ioctl.h>
 #include <linux/sockios.h>
 
@@ -98,6 +99,7 @@ static unsigned tr_serial;
 static char *tr_buf;
 static size_t tr_len, tr_cap;
 static int tr_overflow;
+static unsigned tr_nev;           /* number of events in the trace so far (position of a coap_dispatch call, arecv) */
 
 static int af_open;               /* failure window open: requests are counted */
 static unsigned af_count, af_k1, af_k2;
@@ -148,6 +150,7 @@ static void tr_put(const char *s) {
   if (tr_len) tr_buf[tr_len++] = ' ';
   memcpy(tr_buf + tr_len, s, n + 1);
   tr_len += n;
+  tr_nev++;
 }
 static unsigned tr_slot(void *pp) {
   uintptr_t p = ~(uintptr_t)pp;
@@ -159,7 +162,15 @@ static unsigned tr_slot(void *pp) {
 static void tr_alloc(int type, void *p) {
   char t[48];
   unsigned h;
-  if (!tr_on || !p) return;
+  if (!p) return;
+  if (!tr_on) {
+    /* an allocation outside the trace at an address the trace knows as released: the address is somebody else's now, a later
+     * release of it inside the trace is not a second release of the traced object (lenient scripts: arecv frees sessions
+     * that were set up outside the failure window) */
+    h = tr_slot(p);
+    if (tr_tab[h].p == ~(uintptr_t)p && tr_tab[h].freed) tr_tab[h].freed = 2;
+    return;
+  }
   h = tr_slot(p);
   tr_tab[h].p = ~(uintptr_t)p; tr_tab[h].serial = ++tr_serial; tr_tab[h].freed = 0;
   if (tr_serial >= TR_MAXSERIAL) tr_overflow = 1; else tr_freed[tr_serial] = 0;
@@ -171,7 +182,7 @@ static void tr_free(void *p) {
   unsigned h;
   if (!tr_on || !p) return;
   h = tr_slot(p);
-  if (tr_tab[h].p != ~(uintptr_t)p) { if (!tr_lenient) tr_put("f0"); return; }
+  if (tr_tab[h].p != ~(uintptr_t)p || tr_tab[h].freed == 2) { if (!tr_lenient) tr_put("f0"); return; }
   tr_tab[h].freed = 1;                                      /* a second free prints the same serial again */
   if (tr_tab[h].serial < TR_MAXSERIAL) tr_freed[tr_tab[h].serial] = 1;
   snprintf(t, sizeof(t), "f%u", tr_tab[h].serial);
@@ -233,7 +244,7 @@ void __wrap_coap_free_type(coap_memory_tag_t type, void *p) {
 }
 static void tr_reset(void) {
   memset(tr_tab, 0, sizeof(tr_tab));
-  tr_serial = 0; tr_len = 0; tr_overflow = 0;
+  tr_serial = 0; tr_len = 0; tr_overflow = 0; tr_nev = 0;
   if (tr_buf) tr_buf[0] = 0;
 }
 static int bias_cb(struct dl_phdr_info *info, size_t size, void *data) {
@@ -2059,6 +2070,146 @@ static void do_asrcv(char **w, int n, int unk) {
   end_line();
 }
 
+/* ------------------------------------------------------------------ receive path of a reliable session (modelled in Lean)
+ * arecv <k1> <k2> <dk> <csm> <step>...   c<hex> = a read event with these bytes waiting, x = a read event and the peer is
+ * gone (l_read returns -1), n = the session is freed and a new one set up on the same context.  The session is a CoAP-over-TCP
+ * client session whose lowest read / write functions are a chunk feeder / a sink (as harness/stream.c does for C05); set-up
+ * (connect, CSM) happens OUTSIDE the failure window, only coap_read_session and coap_session_free are inside.  coap_dispatch
+ * is cut short by the source hook coap_verif_dispatch_hook: the PDU handed over and the position in the trace are recorded,
+ * the dk-th call disconnects the session (what a failing write of the response does from inside coap_dispatch). */
+extern int (*coap_verif_dispatch_hook)(coap_session_t *session, coap_pdu_t *pdu);
+static int ar_listen = -1, ar_peer[8], ar_npeer;
+static coap_address_t ar_dst;
+static const uint8_t *ar_chunk; static size_t ar_left; static int ar_eof;
+static unsigned ar_ndisp, ar_dk;
+static char ar_disp[2048]; static size_t ar_displen;
+static ssize_t ar_read(coap_session_t *session, uint8_t *data, size_t datalen) {
+  size_t n = ar_left < datalen ? ar_left : datalen;
+  (void)session;
+  if (ar_eof) return -1;
+  if (n) memcpy(data, ar_chunk, n);
+  ar_chunk += n; ar_left -= n;
+  return (ssize_t)n;
+}
+static ssize_t ar_write(coap_session_t *session, const uint8_t *data, size_t datalen) {
+  (void)session; (void)data;
+  return (ssize_t)datalen;
+}
+static int ar_hook(coap_session_t *session, coap_pdu_t *pdu) {
+  int k = snprintf(ar_disp + ar_displen, sizeof(ar_disp) - ar_displen, "%s%u@%u", ar_displen ? "," : "", tr_serial_of(pdu), tr_nev);
+  if (k > 0 && ar_displen + (size_t)k < sizeof(ar_disp)) ar_displen += (size_t)k;
+  if (++ar_ndisp == ar_dk) coap_session_disconnected_lkd(session, COAP_NACK_NOT_DELIVERABLE);
+  return 1;
+}
+static coap_session_t *ar_new_session(void) {
+  coap_session_t *s;
+  if (ar_listen < 0) {
+    struct sockaddr_in sa; socklen_t sl = sizeof(sa);
+    ar_listen = socket(AF_INET, SOCK_STREAM, 0);
+    memset(&sa, 0, sizeof(sa));
+    sa.sin_family = AF_INET; sa.sin_addr.s_addr = htonl(INADDR_LOOPBACK); sa.sin_port = 0;
+    if (ar_listen < 0 || bind(ar_listen, (struct sockaddr *)&sa, sizeof(sa)) || listen(ar_listen, 16)) return NULL;
+    fcntl(ar_listen, F_SETFL, fcntl(ar_listen, F_GETFL) | O_NONBLOCK);
+    getsockname(ar_listen, (struct sockaddr *)&sa, &sl);
+    coap_address_init(&ar_dst);
+    ar_dst.size = sizeof(struct sockaddr_in);
+    memcpy(&ar_dst.addr.sin, &sa, sizeof(sa));
+  }
+  s = coap_new_client_session(cli, NULL, &ar_dst, COAP_PROTO_TCP);
+  if (!s) return NULL;
+  for (int i = 0; i < 400 && ar_npeer < 8; i++) {
+    int fd = accept(ar_listen, NULL, NULL);
+    if (fd >= 0) { ar_peer[ar_npeer++] = fd; break; }
+    usleep(100);
+  }
+  s->sock.lfunc[COAP_LAYER_SESSION].l_read = ar_read;
+  s->sock.lfunc[COAP_LAYER_SESSION].l_write = ar_write;
+  s->sock.flags |= COAP_SOCKET_CONNECTED;
+  s->sock.flags &= ~(COAP_SOCKET_WANT_CONNECT);
+  coap_lock_lock(cli, return NULL);
+  coap_session_send_csm(s);        /* sets csm_rcv_mtu from the context */
+  s->state = COAP_SESSION_STATE_ESTABLISHED;
+  coap_lock_unlock(cli);
+  return s;
+}
+static void do_arecv(char **w, int n) {
+  static uint8_t buf[8192];
+  coap_session_t *s = NULL;
+  unsigned long csm;
+  int first = 1, bad = 0;
+  char *wtrace;
+  if (n < 5) { printf("bad-op"); return; }
+  csm = strtoul(w[4], NULL, 10);
+  if (!csm || csm > COAP_DEFAULT_MAX_PDU_RX_SIZE) { printf("bad-op"); return; }
+  for (int i = 5; i < n; i++) {
+    if (!strcmp(w[i], "x") || !strcmp(w[i], "n")) continue;
+    if (w[i][0] != 'c' || strlen(w[i] + 1) % 2 || strlen(w[i] + 1) / 2 > sizeof(buf) || strspn(w[i] + 1, "0123456789abcdef") != strlen(w[i] + 1)) { printf("bad-op"); return; }
+  }
+  begin_line();
+  sim_tx_hook = NULL;
+  tr_on = 0;
+  ar_npeer = 0; ar_ndisp = 0; ar_displen = 0; ar_disp[0] = 0; ar_eof = 0; ar_left = 0;
+  if (!world_up(0, 0)) { printf("setup-fail"); world_down(); return; }
+  coap_context_set_csm_max_message_size(cli, (uint32_t)csm);
+  coap_verif_dispatch_hook = ar_hook;
+  s = ar_new_session();
+  if (!s) { printf("setup-fail"); coap_verif_dispatch_hook = NULL; world_down(); return; }
+  af_k1 = (unsigned)strtoul(w[1], NULL, 10);
+  af_k2 = (unsigned)strtoul(w[2], NULL, 10);
+  ar_dk = (unsigned)strtoul(w[3], NULL, 10);
+  tr_lenient = 1;
+  printf("rc=");
+  for (int i = 5; i < n && !bad; i++) {
+    const char *rcs = "-";
+    if (w[i][0] == 'n') {
+      coap_lock_lock(cli, break);
+      lib_on();
+      coap_session_release_lkd(s);                 /* the application's reference: coap_session_free */
+      lib_off();
+      coap_lock_unlock(cli);
+      s = ar_new_session();
+      if (!s) { bad = 1; break; }
+      rcs = "o";
+    } else if (s->state != COAP_SESSION_STATE_NONE) {
+      coap_tick_t now;
+      size_t len = 0;
+      if (w[i][0] == 'c') { len = strlen(w[i] + 1) / 2; for (size_t j = 0; j < len; j++) buf[j] = (uint8_t)(h_hexval(w[i][1 + 2 * j]) * 16 + h_hexval(w[i][2 + 2 * j])); }
+      ar_chunk = buf; ar_left = len; ar_eof = w[i][0] == 'x';
+      coap_ticks(&now);
+      coap_lock_lock(cli, break);
+      lib_on();
+      coap_read_session(cli, s, now);
+      lib_off();
+      coap_lock_unlock(cli);
+      ar_eof = 0; ar_left = 0;
+      rcs = s->state != COAP_SESSION_STATE_NONE ? "o" : "c";
+    }
+    printf("%s%s", first ? "" : ",", rcs);
+    first = 0;
+  }
+  if (first) printf("-");
+  if (bad) printf(",setup-fail");
+  printf(" n=%u st=", af_count);
+  if (!s) printf("none");
+  else {
+    printf("%d/%zu/", s->state != COAP_SESSION_STATE_NONE, s->partial_read);
+    if (s->partial_pdu) printf("%zu:%zu", s->partial_pdu->alloc_size, s->partial_pdu->used_size); else printf("-");
+  }
+  printf(" disp=%s", ar_displen ? ar_disp : "-");
+  wtrace = tr_len ? strdup(tr_buf) : strdup("-");
+  printf(" T %s", wtrace);
+  free(wtrace);
+  tr_on = 1;
+  if (s) coap_session_release(s);
+  coap_verif_dispatch_hook = NULL;
+  world_down();
+  tr_on = 0;
+  for (int i = 0; i < ar_npeer; i++) close(ar_peer[i]);
+  ar_npeer = 0;
+  { int fd; while ((fd = accept(ar_listen, NULL, NULL)) >= 0) close(fd); }
+  end_line();
+}
+
 static void step(char *line) {
   static char *w[512];
   int n = h_words(line, w, 512);
@@ -2069,6 +2220,7 @@ static void step(char *line) {
   else if (n >= 1 && !strcmp(w[0], "atrack")) do_atrack(w, n);
   else if (n >= 1 && !strcmp(w[0], "asrcv")) do_asrcv(w, n, 0);
   else if (n >= 1 && !strcmp(w[0], "asrcvu")) do_asrcv(w, n, 1);
+  else if (n >= 1 && !strcmp(w[0], "arecv")) do_arecv(w, n);
   else printf("bad-op");
   alarm(0);
 }
